@@ -414,11 +414,15 @@ func (r *Runner) assignVal(name string, prev expand.Variable, as *syntax.Assign,
 			prev.Str += s
 		case expand.Indexed:
 			// Appends to the element at index 0, creating it if unset.
-			if len(prev.List) > 0 && (prev.Indexes == nil || prev.Indexes[0] == 0) {
-				prev.List[0] += s
+			// Clone first, as the array may be shared with a parent shell or the environment.
+			list := slices.Clone(prev.List)
+			indexes := slices.Clone(prev.Indexes)
+			if len(list) > 0 && (indexes == nil || indexes[0] == 0) {
+				list[0] += s
 			} else {
-				prev.List, prev.Indexes = internal.SetIndexedElem(prev.List, prev.Indexes, 0, s)
+				list, indexes = internal.SetIndexedElem(list, indexes, 0, s)
 			}
+			prev.List, prev.Indexes = list, indexes
 		case expand.Associative:
 			// TODO
 		}
